@@ -1,0 +1,19 @@
+//go:build verif
+// +build verif
+
+package dosnode
+
+import (
+	"math/big"
+
+	"github.com/DOSNetwork/core/onchain"
+)
+
+// Verification hooks for the panic-freedom property (build tag verif): thin
+// exports of unexported entry points, no logic of their own.
+
+func VerifPByte32(s []byte) *[32]byte { return byte32(s) }
+
+func (d *DosNode) VerifPHandleCR(cr *onchain.LogStartCommitReveal, randSeed *big.Int) {
+	d.handleCR(cr, randSeed)
+}
